@@ -6,13 +6,16 @@ use crate::core::runner::{CheckSpec, Part};
 use crate::core::World;
 use crate::worlds::agent::AgentWorld;
 use crate::worlds::dlrt::DlrtWorld;
+use crate::worlds::dltask::DlTaskWorld;
+use crate::worlds::vote::VoteWorld;
+use crate::worlds::store::StoreWorld;
 
 fn agent(focus: &'static str, name: &'static str) -> Arc<dyn World> {
     Arc::new(AgentWorld { focus, name })
 }
 
 pub fn world_names() -> Vec<&'static str> {
-    vec!["agent-c01", "agent-c02", "agent-c03", "agent-c04", "agent-c05", "agent-c14", "agent-c20", "agent-mix", "dlrt-value", "dlrt-map"]
+    vec!["agent-c01", "agent-c02", "agent-c03", "agent-c04", "agent-c05", "agent-c14", "agent-c20", "agent-mix", "dlrt-value", "dlrt-map", "dltask-value", "dltask-map", "vote", "store-mem", "store-rocks"]
 }
 
 pub fn world_by_name(name: &str) -> Option<Arc<dyn World>> {
@@ -27,6 +30,11 @@ pub fn world_by_name(name: &str) -> Option<Arc<dyn World>> {
         "agent-mix" => agent("MIX", "agent-mix"),
         "dlrt-value" => Arc::new(DlrtWorld { map: false }),
         "dlrt-map" => Arc::new(DlrtWorld { map: true }),
+        "dltask-value" => Arc::new(DlTaskWorld { map: false }),
+        "dltask-map" => Arc::new(DlTaskWorld { map: true }),
+        "vote" => Arc::new(VoteWorld),
+        "store-mem" => Arc::new(StoreWorld { kind: "mem", name: "store-mem" }),
+        "store-rocks" => Arc::new(StoreWorld { kind: "rocks", name: "store-rocks" }),
         _ => return None,
     })
 }
@@ -38,6 +46,13 @@ fn part(world: &str, quick: u64, thorough: u64) -> Part {
 const AGENT_ASSUMPTIONS: &[&str] = &[
     "the agent + runtime future is polled as one task (as the server does with tokio::spawn); interleavings finer than one poll are approximated by forced yields after k byte-channel operations (k drawn per run, down to 1)",
     "remote peers, command targets and the store are harness code speaking the product's own codecs over the product's byte channels",
+    "a clean batch is evidence for the explored seeds, not a proof",
+];
+
+const STORE_ASSUMPTIONS: &[&str] = &[
+    "RocksDB and the file system are real, not simulated: the run is deterministic in its recorded history (operations and answers) because every call is synchronous and single-threaded, not because RocksDB's background threads are controlled",
+    "a kill is SIGKILL of a real writer process at an operation boundary (after the acknowledgement of an operation); kills inside an operation and power loss (loss of the page cache) are not explored",
+    "each (agent, item) is used consistently as a value or as a map: the persistence traits do not define mixed use (in-memory answers InvalidOperation, RocksDB keeps both)",
     "a clean batch is evidence for the explored seeds, not a proof",
 ];
 
@@ -53,6 +68,27 @@ pub fn spec_for(property: &str) -> Option<CheckSpec> {
         "C07" => CheckSpec { property: "C07", level: "exploration", parts: vec![part("dlrt-value", 3000, 300_000), part("dlrt-map", 3000, 300_000)], assumptions: vec![
             "the downlink runtime is polled as one task; the remote lane and the consumers are scripted harness code speaking the product's codecs over the product's byte channels".into(),
             "workloads use one writer per map key and clears only in single-writer runs so that 'as if all were sent' is unambiguous".into()] },
+        "C08" => CheckSpec { property: "C08", level: "exploration", parts: vec![part("dltask-value", 4000, 400_000), part("dltask-map", 4000, 400_000)], assumptions: vec![
+            "only the stand-alone client downlinks are driven; the agent-hosted downlinks and the client/hosted equivalence clause are not covered yet".into(),
+            "the reference fold is the documented semantics: state = fold of notifications since linked; callbacks only when synced or events_when_not_synced".into()] },
+        "C17" => CheckSpec {
+            property: "C17",
+            level: "exploration",
+            parts: vec![part("vote", 20_000, 2_000_000), part("dlrt-value", 2000, 100_000), part("agent-c04", 1000, 50_000)],
+            assumptions: vec![
+                "ops are applied sequentially to the real coordinator (each vote/rescind/drop/poll is atomic); interleavings inside one op are explored by the separate shuttle harness (/verif/shuttle)".to_string(),
+                "the answer of a vote cast after unanimity is not judged (the property text says nothing about it; counted in vote_pending_after_unanimity)".to_string(),
+                "system level: the downlink runtime with idle consumers must not stop when time passes (dlrt idle probe); agent time-out endings are exercised by the agent world".to_string(),
+            ],
+        },
+        "C13" => CheckSpec {
+            property: "C13",
+            level: "fault_enumeration",
+            // store-mem: one run = a batch of 32 sequences (microseconds each); store-rocks: one run = one
+            // sequence on a real RocksDB directory with up to 3 reopen / kill boundaries (tens of ms each).
+            parts: vec![part("store-mem", 12_000, 1_500_000), part("store-rocks", 400, 40_000)],
+            assumptions: STORE_ASSUMPTIONS.iter().map(|s| s.to_string()).collect(),
+        },
         "C14" => CheckSpec { property: "C14", level: "exploration", parts: vec![part("agent-c14", 3000, 200_000), part("agent-mix", 1000, 100_000)], assumptions: a() },
         _ => return None,
     })
